@@ -50,6 +50,13 @@ def run(ctx):
                  "stalems": 3000, "deadlinefactor": 100})
     scns.append({"id": 51, "n": 20, "prios": 3, "rseed": rnd.randrange(1 << 30), "faults": False, "errdestroy": 0.5,
                  "stalems": 3000, "deadlinefactor": 100})
+    # the cloud's list call is rate limited (every other list fails), Destroy fails half of the time, one restart
+    scns.append({"id": 52, "n": 30, "prios": 3, "rseed": rnd.randrange(1 << 30), "faults": False, "errdestroy": 0.5,
+                 "listlimitms": 15, "restart": True, "stalems": 3000, "deadlinefactor": 100})
+    # instances are scarce (create rate limit) and the first two start reporting "broken" while they are busy
+    scns.append({"id": 53, "n": 40, "prios": 2, "rseed": rnd.randrange(1 << 30), "faults": False, "onetype": True,
+                 "createlimitms": 250, "reportbroken": 2, "reportbrokenms": 200, "execms": 60, "stalems": 3000,
+                 "deadlinefactor": 100})
     by_id = {s["id"]: s for s in scns}
     events = _c14().run_e2e(ctx, scns)
     # regression scenarios for KF-C15-1 / KF-C15-2 (both fixed): scripted Executors against the real worker.Pool, no timing
